@@ -792,6 +792,7 @@ func (bc *boundsCtx) analyse(fn *ssa.Function) *boundsResult {
 	}
 	res.in[0] = cstate{}
 	res.top[0] = false
+	bc.seedCapturedLengths(fn, res.in[0])
 	visits := make([]int, n)
 	work := []*ssa.BasicBlock{fn.Blocks[0]}
 	inWork := map[*ssa.BasicBlock]bool{fn.Blocks[0]: true}
@@ -1326,4 +1327,57 @@ func showLin(l lin) string {
 		return fmt.Sprintf("%s%d", k, l.off)
 	}
 	return k
+}
+
+
+// seedCapturedLengths: a closure starts out knowing `n == len(A)` for captured variables n and A of an enclosing
+// function P that are each assigned exactly once, A before n, n's value being len(A), and both before any closure
+// that captures n is created (`n := len(A)` hoisted out of the closures that test `i < n`). Slices are immutable in
+// length, A is never reassigned, so the relation holds whenever such a closure runs.
+func (bc *boundsCtx) seedCapturedLengths(fn *ssa.Function, s cstate) {
+	if fn.Parent() == nil {
+		return
+	}
+	for _, fv := range fn.FreeVars {
+		nCell := resolveCell(fv)
+		if nCell == nil || !bc.cellUsable(nCell) {
+			continue
+		}
+		if bt, ok := deref(nCell.Type()).Underlying().(*types.Basic); !ok || bt.Info()&types.IsInteger == 0 {
+			continue
+		}
+		ns := cellStores(nCell)
+		if len(ns) != 1 || ns[0].Parent() != nCell.Parent() {
+			continue
+		}
+		arg, ok := lenArg(ns[0].Val)
+		if !ok {
+			continue
+		}
+		addr, ok := isLoad(arg)
+		if !ok {
+			continue
+		}
+		aCell, ok := addr.(*ssa.Alloc)
+		if !ok || !bc.cellUsable(aCell) || aCell.Parent() != nCell.Parent() {
+			continue
+		}
+		as := cellStores(aCell)
+		if len(as) != 1 || as[0].Parent() != nCell.Parent() || !instrDominates(as[0], ns[0]) {
+			continue
+		}
+		// every closure that captures n is created after n was assigned
+		okOrder := true
+		for _, ref := range referrers(nCell) {
+			if mc, isMC := ref.(*ssa.MakeClosure); isMC && !instrDominates(ns[0], mc) {
+				okOrder = false
+			}
+		}
+		if !okOrder {
+			continue
+		}
+		nk, lk := cellID(nCell), "len("+cellID(aCell)+")"
+		s.add(nk, lk, 0)
+		s.add(lk, nk, 0)
+	}
 }
